@@ -27,6 +27,8 @@ This module ties the model to the real server over TCP:
             waiters, push-then-pop, list renamed onto the key, aborting script), subscribers, a WATCHing connection that EXECs
             afterwards - must be the same after EVAL and after EVALSHA of the same source, plain and inside MULTI/EXEC, and (for data
             commands) the same as after the directly issued commands.
+  dispatch-sweep  every name of the server's dispatch table (Gen/Dispatch.lean) except what Redis refuses in scripts and administration
+            names goes through redis.pcall once: none may be an 'unknown command' inside a script.
   refused   every name of `Lua.refusedNames` (except SHUTDOWN / DEBUG, never sent) inside call and pcall:
             error, nothing changed, connection state untouched; names unknown to the executor likewise.
   sandbox   `os`, `io`, `loadfile`, … must be nil / raise; SAVE-like stubs must not touch the disk; no way to install a __gc finalizer
@@ -329,8 +331,6 @@ def parity_cause(name, args, ra, rb, db, dump_equal, variant):
             return "zadd-validation"
     if name in ("FLUSHDB", "DBSIZE", "KEYS") and db != 0 and not eb:
         return "db0-commands"
-    if name in ("ZPOPMIN", "ZPOPMAX") and ra == ("na",) and not eb:
-        return "zpop-missing"
     # the executor parses these commands with its own parser and re-assembles a frame for the shared handler: arguments that parser
     # does not keep are lost or reordered, and it validates before (and differently from) the handler.  Exempt: every form of
     # these four commands EXCEPT the plain one, and HSCAN NOVALUES.  (XREAD, XADD, XRANGE, XDEL, XACK, ... are not exempt.)
@@ -1801,8 +1801,11 @@ THIRD_PARTY_SCENARIOS = [
     TP("blpop.failing-call-after-push", [("blpop", [b"q"])], "redis.call('RPUSH', KEYS[1], ARGV[1]) return redis.call('INCR', KEYS[1])", [b"q"], [b"v"], None,
        note="the script aborts after the push: the element is there, the waiter must get it"),
     TP("blpop.other-key-pushed", [("blpop", [b"q"])], "return redis.call('RPUSH', 'elsewhere', ARGV[1])", [b"q"], [b"v"], [[b"RPUSH", b"elsewhere", b"v"]]),
-    TP("subscriber.publish", [("sub", b"ch"), ("psub", b"c*")], "return redis.pcall('PUBLISH', ARGV[1], ARGV[2])", [], [b"ch", b"m"], None,
-       note="whatever a script's PUBLISH does, EVAL and EVALSHA must do the same"),
+    TP("subscriber.publish", [("sub", b"ch"), ("psub", b"c*"), ("sub", b"other")], "return redis.call('PUBLISH', ARGV[1], ARGV[2])", [], [b"ch", b"m"],
+       [[b"PUBLISH", b"ch", b"m"]], note="one message per matching subscription, at the same moment (inside MULTI: at EXEC), as for the directly issued PUBLISH"),
+    TP("subscriber.write-then-publish", [("sub", b"ch")], "redis.call('SET', KEYS[1], ARGV[2]) return redis.pcall('publish', ARGV[1], ARGV[2])", [b"pk"], [b"ch", b"\xff\x00m"],
+       [[b"SET", b"pk", b"\xff\x00m"], [b"PUBLISH", b"ch", b"\xff\x00m"]]),
+    TP("subscriber.nobody-listens", [("sub", b"other")], "return redis.call('PUBLISH', ARGV[1], ARGV[2])", [], [b"ch", b"m"], [[b"PUBLISH", b"ch", b"m"]]),
     TP("watch.key-written", [("watch", b"w")], "return redis.call('SET', KEYS[1], ARGV[1])", [b"w"], [b"2"], [[b"SET", b"w", b"2"]]),
     TP("watch.key-not-written", [("watch", b"w")], "return redis.call('SET', 'other', ARGV[1])", [b"w"], [b"2"], [[b"SET", b"other", b"2"]]),
     TP("watch.key-deleted", [("watch", b"w")], "return redis.call('DEL', KEYS[1])", [b"w"], [], [[b"DEL", b"w"]]),
@@ -1920,13 +1923,60 @@ def layer_third_parties(ck):
                     o_cmp = {k: v for k, v in o_eval.items() if k != "actor"}
                     if o_cmp != o_dir:
                         diff = sorted(k for k in set(o_cmp) | set(o_dir) if o_cmp.get(k) != o_dir.get(k))
-                        cause = "third-party:" + sc["tag"].split(".")[0] + ("-in-exec" if in_exec else "")
+                        cause = "parity:publish-missing-in-scripts" if sc["tag"].startswith("subscriber") else \
+                            "third-party:" + sc["tag"].split(".")[0] + ("-in-exec" if in_exec else "")
                         if not ck.note_known(cause, det):
                             ck.fail("third-party", "what other connections observe after the script differs from the directly issued commands (%s, %s): %s"
                                     % (sc["tag"], ctx, ", ".join(diff)), det)
         rep.extra["third_party_scenarios"] = dict(sorted(dist.items()))
     finally:
         ctl.close()
+        srv.stop()
+
+
+# names that need not (or must not) be reachable from a script: what Redis itself refuses inside scripts, and administration /
+# introspection / test commands; none of them is sent by the sweep
+SWEEP_EXEMPT = {"SUBSCRIBE", "UNSUBSCRIBE", "PSUBSCRIBE", "PUNSUBSCRIBE", "PUBSUB", "MULTI", "EXEC", "DISCARD", "WATCH", "UNWATCH", "AUTH", "SELECT", "QUIT", "RESET",
+                "BLPOP", "BRPOP", "BZPOPMIN", "BZPOPMAX", "EVAL", "EVALSHA", "SCRIPT", "MONITOR", "SHUTDOWN", "DEBUG", "SLEEP", "SYNC", "PSYNC", "REPLICAOF",
+                "SLAVEOF", "REPLCONF", "CLIENT", "CONFIG", "ACL", "SAVE", "BGSAVE", "BGREWRITEAOF", "LASTSAVE", "SLOWLOG", "MEMORY", "COMMAND", "INFO", "VERIF"}
+
+
+def dispatched_names():
+    """the command names the server dispatches for a client (Gen/Dispatch.lean, regenerated by the translator on this run)"""
+    path = os.path.join(LEAN, "FerrousSpec", "Gen", "Dispatch.lean")
+    if not os.path.exists(path):
+        raise InternalError("Gen/Dispatch.lean is missing (translator)")
+    text = open(path).read()
+    names = set(re.findall(r'^\s*\("([A-Z]+)", (?:true|false)\),?', text, re.M))
+    m = re.search(r"def preDispatch : List String := \[(.*?)\]", text)
+    if not names or not m:
+        raise InternalError("Gen/Dispatch.lean: dispatch / preDispatch not recognised")
+    return sorted(names | set(re.findall(r'"([A-Z]+)"', m.group(1))))
+
+
+def layer_dispatch_sweep(ck):
+    """every command a client can issue directly - except what Redis refuses in scripts and administration names - must be KNOWN inside a
+    script too: redis.pcall(NAME) without arguments on a dedicated server; any answer but 'unknown command' passes (an arity error does)"""
+    rep = ck.rep
+    names = [n for n in dispatched_names() if n not in SWEEP_EXEMPT]
+    srv = Server("c12w")
+    c = srv.client()
+    unknown = []
+    try:
+        for n in names:
+            for nm in (n, n.lower()):
+                got = c.cmd("EVAL", "return redis.pcall(ARGV[1])", "0", nm, timeout=5.0)
+                rep.evaluations += 1
+                if got[0] == "e" and b"unknown command" in got[1].lower():
+                    unknown.append(n)
+                    det = {"layer": "dispatch-sweep", "name": nm, "script": "return redis.pcall(ARGV[1])", "argv": [nm], "reply": str(got)}
+                    if not (n == "PUBLISH" and ck.note_known("parity:publish-missing-in-scripts", det)):
+                        ck.fail("dispatch-sweep", "%s can be issued directly but is an unknown command inside a script" % n, det)
+                    break
+            rep.nontrivial(("dispatch-sweep", n, n in unknown))
+        rep.extra["dispatch_sweep"] = {"names_swept": len(names), "exempt": sorted(SWEEP_EXEMPT & set(dispatched_names())), "unknown_inside_scripts": sorted(set(unknown))}
+    finally:
+        c.close()
         srv.stop()
 
 
@@ -1940,7 +1990,7 @@ REFUSED_ARGS = {
 }
 NOT_SENT = {"SHUTDOWN", "DEBUG"}        # refused by the table theorem only: never sent, not even inside a script
 UNKNOWN_TO_EXECUTOR = {"BRPOPLPUSH": [b"l", b"l2", b"0"], "BLMOVE": [b"l", b"l2", b"LEFT", b"RIGHT", b"0"], "WAIT": [b"0", b"0"],
-                       "HELLO": [b"3"], "PUBLISH": [b"ch", b"m"], "SLOWLOG": [b"GET"], "MEMORY": [b"USAGE", b"k1"], "COMMAND": []}
+                       "HELLO": [b"3"], "SLOWLOG": [b"GET"], "MEMORY": [b"USAGE", b"k1"], "COMMAND": []}
 
 
 def layer_refused(ck):
@@ -2609,6 +2659,7 @@ def main(tier, seed):
         layer_script_cache(ck, r)
         layer_third_parties(ck)
         layer_refused(ck)
+        layer_dispatch_sweep(ck)
         layer_sandbox(ck)
         layer_atomic(ck, 3, 150 if q else 1500)
         layer_ttl_parity(ck)
